@@ -83,6 +83,7 @@ type C1 struct {
 	NilHooksOption  bool          // serial client built with WithSerialHooks(nil) when no hooks are wanted
 	PanicHook       string        // "write" | "read" | "parse": the installed hook of that kind panics once; the application recovers the panic and goes on using the client
 	HookDelay       time.Duration // every hook call takes this long (simulated)
+	DialCtxBound    bool          // network clients: the connection lives only as long as the context the dial function was given
 	ZeroNilReads    bool          // network transports: a non-blocking connection whose reads return (0, nil) when nothing has arrived
 	WrappedTimeouts bool          // network transports report read timeouts as a *net.OpError wrapping the sentinel, as real sockets do
 	Reply           []byte        // bytes the transport will deliver (before any terminal fault)
@@ -440,7 +441,7 @@ func RunC1(rc *RunCtx, sc *C1) *C1Outcome {
 		conf := modbus.ClientConfig{
 			ReadTimeout:  sc.ReadTimeout,
 			WriteTimeout: sc.WriteTimeout,
-			DialContextFunc: func(context.Context, string) (net.Conn, error) {
+			DialContextFunc: func(dctx context.Context, _ string) (net.Conn, error) {
 				if sc.Fault == FDialFail {
 					if sc.TypedNilDial {
 						// what `return tls.Dial(...)` style dial functions hand back on failure: a nil pointer in a non-nil interface
@@ -449,6 +450,16 @@ func RunC1(rc *RunCtx, sc *C1) *C1Outcome {
 					return nil, fmt.Errorf("dial refused: %w", ErrSimRefused)
 				}
 				gen++
+				if sc.DialCtxBound {
+					// a dial function that ties what it sets up (a tunnel, an in-memory device) to the context it is given,
+					// as DialContext-style functions may: when that context ends, the connection is gone
+					g := gen
+					context.AfterFunc(dctx, func() {
+						if g == gen {
+							cl.Close()
+						}
+					})
+				}
 				if gen > 1 {
 					cl.lock()
 					cl.rdl, cl.wdl = time.Time{}, time.Time{} // a fresh connection has no deadlines set
